@@ -82,6 +82,7 @@ func scenario(param string) vsched.Scenario {
 			stopped                bool
 			env                    *udpenv.Env
 			wantT                  = make([]int, sp.n) // target index of session i
+			mustNotArrive          = map[string]bool{}
 		)
 		body := func() {
 			var err error
@@ -129,7 +130,7 @@ func scenario(param string) vsched.Scenario {
 				ti := i % nT
 				wantT[i] = ti
 				var target conn.Addr
-				useDomain := sp.targets == "domain" || (sp.targets == "mixed" && i%2 == 1)
+				useDomain := sp.targets == "domain" || sp.targets == "domainfail" || (sp.targets == "mixed" && i%2 == 1)
 				if useDomain {
 					target = conn.MustAddrFromDomainPort(fmt.Sprintf("t%d.test", ti), 7000)
 				} else {
@@ -142,6 +143,13 @@ func scenario(param string) vsched.Scenario {
 							c.Rebind(1)
 						}
 						p := fmt.Sprintf("s%d#%d", i, k)
+						if sp.targets == "domainfail" && k > 0 {
+							// later datagrams of the session go to a name that does not resolve
+							p = fmt.Sprintf("x%d#%d", i, k)
+							mustNotArrive[p] = true
+							c.Send(conn.MustAddrFromDomainPort("unresolvable.test", 7000), []byte(p))
+							continue
+						}
 						if err := c.Send(target, []byte(p)); err != nil {
 							replies[i] = append(replies[i], reply{Err: "send: " + err.Error()})
 							continue
@@ -203,6 +211,9 @@ func scenario(param string) vsched.Scenario {
 				seen := map[string]int{}
 				for _, g := range t.Got {
 					seen[g.Payload]++
+					if mustNotArrive[g.Payload] {
+						return obs, fmt.Sprintf("datagram %q, addressed to a name that does not resolve, was sent to target %d", g.Payload, ti)
+					}
 					var si, k int
 					if _, err := fmt.Sscanf(g.Payload, "s%d#%d", &si, &k); err != nil || si >= sp.n {
 						return obs, fmt.Sprintf("target %d received a datagram nobody sent: %q", ti, g.Payload)
@@ -297,6 +308,9 @@ func family(c *harness.Check) []string {
 			if sv != "direct" {
 				// a tunnel server has no framing: every datagram is a valid payload for the fixed target
 				out = append(out, spec{sv, b, "ip", 1, 2, true, false}.String())
+				// a resolvable domain first, then datagrams to a name whose lookup fails
+				out = append(out, spec{sv, b, "domainfail", 1, 3, false, false}.String())
+				out = append(out, spec{sv, b, "domainfail", 2, 2, false, false}.String())
 			}
 			if sv == "ss2022" {
 				out = append(out, spec{sv, b, "ip", 1, 2, false, true}.String())
